@@ -16,7 +16,7 @@ import json, os, collections
 import vf
 
 SPECDIR = os.path.join(vf.SPEC, "fri")
-TOY_CLASSES = ["highdeg", "killed", "under", "under2", "layer", "kernel", "rem", "remcraft", "evalchg", "each"]
+TOY_CLASSES = ["highdeg", "lowzero", "killed", "under", "under2", "layer", "kernel", "rem", "remcraft", "evalchg", "each"]
 REAL_CLASSES = ["layer", "kernel", "rem", "remcraft", "under", "under2", "evalchg", "each"]
 
 META = dict(
@@ -104,6 +104,7 @@ def run(ck, tier):
     for c in TOY_CLASSES:
         ck.require(per[c] >= 30, "too few %s cases generated: %d" % (c, per[c]))
     ck.require(verd[("highdeg", "reject", "reject")] >= 100, "high-degree cases rejected by the specification: %d" % verd[("highdeg", "reject", "reject")])
+    ck.require(verd[("lowzero", "reject", "reject")] >= 30, "over-degree cases with vanishing low coefficients rejected by the specification: %d" % verd[("lowzero", "reject", "reject")])
     ck.require(verd[("killed", "accept", "accept")] >= 20, "no high-degree case that the specification accepts (expectations would look assumed)")
     ck.require({s["N"] for s in toy if s["cls"] == "kernel"} >= {4, 8, 16}, "kernel forgeries do not cover folding 4, 8, 16")
     ck.require(len({s["strict"] for s in toy}) >= 6, "too few distinct rejection reasons in the specification's verdicts")
